@@ -32,7 +32,7 @@ package types
 // the delay and the stop; nothing else (a request context, say) ends the wait
 //@ func (*TransactionCancelTimer).Start$1
 //@   props C06 C05
-//@   chanevents
+//@   chanevents wakeups
 //@   requires t != nil
 //@   nosafety the claim is about what the wait listens to; no-panic is property C20
 //@   let n0 = ntrace()
@@ -40,6 +40,8 @@ package types
 //@   ensures waits_for_expiry_or_stop_only [C06 C05]: called(NewTimer) && forall(i, n0, ntrace(), isev(emitted(i), Recv) ==>
 //@            evarg(emitted(i), Recv, 0) == done0 || evarg(emitted(i), Recv, 0) == callres(NewTimer, 0).C)
 //@   ensures the_delay_is_the_configured_one [C06]: callarg(NewTimer, 0, 0) == t.delay
+//@   ensures wakes_up_once [C06 C05]: ntrace() >= n0 + 1 && isev(emitted(n0), Recv) && forall(i, n0 + 1, ntrace(), !isev(emitted(i), Recv))
+//@   ensures a_stop_runs_nothing [C05 C06]: evarg(emitted(n0), Recv, 0) != callres(NewTimer, 0).C ==> ntrace() == n0 + 1
 
 //@ iface RollbackInterface.TransactionRollback
 //@   params ctx transaction dryRun
